@@ -35,7 +35,7 @@ func (vc *FuncVC) execCall(st *State, c *ssa.CallCommon, fv Value, args []Value,
 		vc.execBuiltin(st, f, c, args, pos, k)
 		return
 	case *ClosureVal:
-		vc.callFunction(st, f.Fn, f.Bind, args, pos, k)
+		vc.callFunctionC(st, f.Fn, c, f.Bind, args, pos, k)
 		return
 	case Term:
 		// function value: known closure, function-type contract, or unknown
@@ -60,9 +60,13 @@ func (vc *FuncVC) execCall(st *State, c *ssa.CallCommon, fv Value, args []Value,
 }
 
 func (vc *FuncVC) callFunction(st *State, fn *ssa.Function, bind []Value, args []Value, pos token.Pos, k func(*State, Value)) {
+	vc.callFunctionC(st, fn, nil, bind, args, pos, k)
+}
+
+func (vc *FuncVC) callFunctionC(st *State, fn *ssa.Function, c *ssa.CallCommon, bind []Value, args []Value, pos token.Pos, k func(*State, Value)) {
 	sp := vc.w.specFor(fn)
-	if h := vc.higherOrder(fn); h != nil {
-		h(st, fn, args, pos, k)
+	if h := vc.higherOrder(fn); h != nil && c != nil {
+		h(st, fn, c, args, pos, k)
 		return
 	}
 	if sp != nil && !sp.Inline && len(bind) == 0 {
@@ -466,7 +470,10 @@ func (vc *FuncVC) execBuiltin(st *State, f *ssa.Builtin, c *ssa.CallCommon, args
 		} else {
 			oldSt := st.snapshot()
 			vc.havocRange(st, el, dst, IntLit(0), n, func(leaf string, i Term) *Term {
-				h := oldSt.heaps[leaf]
+				h, ok := oldSt.heaps[leaf]
+				if !ok {
+					h = vc.sc.Const("H."+leaf+".0", vc.heapSorts[leaf])
+				}
 				t := Select(Select(h, SArr(src)), Add(SOff(src), i))
 				return &t
 			})
